@@ -84,7 +84,7 @@ func Start(store, dir string) (*Server, error) {
 	}
 	s.Srv = srv
 	s.URL = "http://" + srv.Addr
-	s.HC = &http.Client{Timeout: 60 * time.Second, Transport: &http.Transport{DisableCompression: true, MaxIdleConnsPerHost: 4},
+	s.HC = &http.Client{Timeout: 30 * time.Second, Transport: &http.Transport{DisableCompression: true, MaxIdleConnsPerHost: 4},
 		CheckRedirect: func(*http.Request, []*http.Request) error { return http.ErrUseLastResponse }}
 	return s, nil
 }
@@ -808,6 +808,13 @@ func (s *Server) Run(tr int, prog []Op) []Op {
 		modelGen := op.Gen // a TLC-generated program names the model's generation here
 		op.Gen = 0
 		s.Exec(&op, hist, i+1)
+		if op.Resp != nil && op.Resp.Aborted && strings.Contains(op.Resp.Raw, "Timeout") {
+			// the request was never answered: the emulator is wedged (every later request on the same object would wait
+			// for the client timeout too). The unanswered request is the last event of this trace.
+			op.Obs = &Obs{}
+			out = append(out, op)
+			break
+		}
 		if op.Gen != 0 {
 			key := string(op.B) + "\x00" + string(op.N)
 			if op.Ev == "Copy" {
